@@ -223,13 +223,18 @@ func NewCMAC(b cipher.Block, size int) *cmac {
 	blockSize := b.BlockSize()
 	k1 := make([]byte, blockSize)
 	k2 := make([]byte, blockSize)
+	// reduction constant of the doubling: R_128 = 0x87, R_64 = 0x1B
+	rb := byte(0b10000111)
+	if blockSize == 8 {
+		rb = 0b00011011
+	}
 	b.Encrypt(k1, k1)
 	msb := shiftLeft(k1)
-	k1[len(k1)-1] ^= msb * 0b10000111
+	k1[len(k1)-1] ^= msb * rb
 
 	copy(k2, k1)
 	msb = shiftLeft(k2)
-	k2[len(k2)-1] ^= msb * 0b10000111
+	k2[len(k2)-1] ^= msb * rb
 
 	d := &cmac{b: b, k1: k1, k2: k2, size: size}
 	d.blockSize = blockSize
